@@ -63,7 +63,7 @@ func c16Cmd(i uint64) []byte {
 
 func c16Entry(i uint64) pb.Entry {
 	return pb.Entry{Type: pb.ApplicationEntry, Index: i, Term: c16Term,
-		ClientID: 9001, SeriesID: client.NoOPSeriesID, Cmd: c16Cmd(i)}
+		Key: 77000 + i, ClientID: 9001, SeriesID: client.NoOPSeriesID, Cmd: c16Cmd(i)}
 }
 
 func c16Mix(h uint64, idx uint64, cmd []byte) uint64 {
@@ -345,6 +345,9 @@ func (d *c16DB) SaveBootstrapInfo(s, r uint64, bs pb.Bootstrap) error {
 	return nil
 }
 func (d *c16DB) SaveRaftState(updates []pb.Update, w uint64) error {
+	if len(updates) == 0 {
+		return nil // processSteps saves an empty batch when no node has an update
+	}
 	if err := d.DB.SaveRaftState(updates, w); err != nil {
 		return err
 	}
@@ -417,6 +420,25 @@ func (h *c16HookFS) Create(name string) (vfs.File, error) {
 	}
 	return &c16HookFile{File: f, h: h, name: name}, nil
 }
+// Stat reports the base name of the path asked for, as a real file system
+// does. (lni/vfs MemFS keeps the name a node got from its last Rename even
+// after ResetToSyncedState undid that rename, which made processOrphans look
+// at the wrong directory name in crash images.)
+func (h *c16HookFS) Stat(name string) (os.FileInfo, error) {
+	fi, err := h.IFS.Stat(name)
+	if err != nil {
+		return nil, err
+	}
+	return c16FileInfo{FileInfo: fi, name: h.IFS.PathBase(name)}, nil
+}
+
+type c16FileInfo struct {
+	os.FileInfo
+	name string
+}
+
+func (f c16FileInfo) Name() string { return f.name }
+
 func (h *c16HookFS) Link(o, n string) error { h.before("link " + n); return h.IFS.Link(o, n) }
 func (h *c16HookFS) Remove(name string) error {
 	h.before("remove " + name)
@@ -621,6 +643,14 @@ func c16Boot(id uint64, kind string, fs vfs.IFS, db raftio.ILogDB, snapdir, smdi
 	return r
 }
 
+// c16BootSettled is c16Boot for the live runs: the step worker then runs until
+// the replica is quiet (a new replica persists its bootstrap entries).
+func c16BootSettled(id uint64, kind string, fs vfs.IFS, db raftio.ILogDB, snapdir, smdir string, mark func(string)) *c16Rep {
+	r := c16Boot(id, kind, fs, db, snapdir, smdir, mark)
+	r.settle()
+	return r
+}
+
 func (r *c16Rep) stepWorker() {
 	r.pipe.step = false
 	nodes := map[uint64]*node{c16Shard: r.node}
@@ -661,11 +691,11 @@ func (r *c16Rep) snapshotWorker() {
 				r.beforeSave()
 			}
 			err := w.handle(job{task: req, node: n, instanceID: n.instanceID, shardID: c16Shard})
+			if err != nil {
+				panic(fmt.Sprintf("save job failed: %v", err)) // engine.go workerMain: panicNow(err)
+			}
 			if r.afterSave != nil {
 				r.afterSave()
-			}
-			if err != nil {
-				panic(fmt.Sprintf("save job failed: %v", err))
 			}
 		}
 	}
@@ -685,6 +715,7 @@ func (r *c16Rep) settle() {
 		r.applyWorker()
 		if r.pipe.save || r.pipe.recover {
 			r.snapshotWorker()
+			r.collect()
 			r.applyWorker()
 			quiet = 0
 			continue
@@ -736,6 +767,9 @@ func (r *c16Rep) feed(hi, commit uint64) {
 	if last < c16First {
 		prevTerm = 1
 	}
+	if last == 0 {
+		prevTerm = 0
+	}
 	m := pb.Message{Type: pb.Replicate, From: r.leaderTo, To: r.id, ShardID: c16Shard, Term: c16Term,
 		LogIndex: last, LogTerm: prevTerm, Commit: commit}
 	for i := last + 1; i <= hi; i++ {
@@ -785,7 +819,7 @@ func c16Produce(kind string, x uint64) []pb.Chunk {
 			panic(err)
 		}
 	}
-	p := c16Boot(c16Leader, kind, fs, memlogdb.New(), "/p/snap", "/p/sm", nil)
+	p := c16BootSettled(c16Leader, kind, fs, memlogdb.New(), "/p/snap", "/p/sm", nil)
 	p.leaderTo = 3
 	p.feed(x, x)
 	if got := p.node.sm.GetLastApplied(); got != x {
